@@ -16,7 +16,7 @@ Cmp(s) == [f \in DOMAIN s \ {"grantVals", "grantExp"} |-> s[f]]
 \* spending from a grant never changes when it expires: for every grant that existed before and still
 \* exists after a transaction that contains no approve-family call, the expiration is the same
 RECURSIVE HasApprove(_)
-HasApproveOp(o) == (o.op = "pc" /\ o.m \in ApproveFamily) \/ (o.op = "call" /\ HasApprove(o.body))
+HasApproveOp(o) == (o.op = "pc" /\ o.m \in ApproveFamily) \/ (o.op \in {"call", "create"} /\ (HasApprove(o.body) \/ HasApprove(o.alt)))
 HasApprove(body) == \E i \in 1..Len(body) : HasApproveOp(body[i])
 ExpiryChanged(e) ==
     {<<g, x, t>> \in UNION {UNION {{<<g2, x2, t2>> : t2 \in DOMAIN e.pre.grants[g2][x2]} : x2 \in DOMAIN e.pre.grants[g2]} : g2 \in DOMAIN e.pre.grants} :
@@ -47,13 +47,21 @@ Judge(e) ==
         rnd   == e.src = "rand"
         cls   == (IF rnd THEN "random-tree" ELSE Shape(e)) \o (IF Cmp(MTx(e)) = post THEN ",as-built=yes" ELSE ",as-built=NO")
     IN  \* C02: supply and balances
-        (IF revpc THEN {} ELSE
+        \* (an outcome the as-built machine does not reproduce is nobody's known finding: it is judged here too)
+        (IF revpc /\ Cmp(MTx(e)) = post THEN {} ELSE
            (IF "supply" \in diff THEN {Sig("C02", IF BigLT(ideal.supply, post.supply) THEN "supply-minted" ELSE "supply-burned", cls, e)} ELSE {})
            \cup (IF diff \cap {"bank", "mods"} # {} THEN {Sig("C02", "balance-mismatch", cls, e)} ELSE {}))
         \* C05: a reverted frame (or failed transaction) left a trace
         \cup (IF rev /\ diff # {} THEN {Sig("C05", (IF HasFailedPc(e) THEN "failed-precompile-call-left-trace:" ELSE "reverted-frame-left-trace:") \o (IF rnd THEN "*" ELSE FirstField(diff)), cls, e)} ELSE {})
         \* C04: authorization of successful calls; exact grant accounting
         \cup {Sig("C04", b.k, b.m \o "|" \o cls, e) : b \in r.bad}
+        \* ... and a call that was not entitled to act and reported failure has nevertheless left its effect
+        \cup {Sig("C04", "unauthorized-call-reported-failure-but-left-effect:" \o b.k, b.m \o "|" \o cls, e) :
+                 b \in {x \in r.fbad : /\ FieldsOf(x.m) \cap diff # {}
+                                          \* (which of several calls left the trace cannot be read off the end state: the clause speaks
+                                          \* where the as-built machine leaves an effect for exactly this reason - the allow-list
+                                          \* is checked after the message ran - or where it does not reproduce the outcome at all)
+                                          /\ (x.k = "grant-does-not-cover-validator" \/ Cmp(MTx(e)) # post)}}
         \cup (IF ~rev /\ "grants" \in diff THEN {Sig("C04", "grant-accounting", cls, e)} ELSE {})
         \cup (IF ~HasApproveOp(e.top) /\ ExpiryChanged(e) # {} THEN {Sig("C04", "grant-expiration-changed-by-spend", cls, e)} ELSE {})
         \* anything else the precompile did differently from the native meaning
